@@ -129,7 +129,7 @@ def run(ctx):
     # every body equals its default twin modulo Rc<->Arc
     r = cc.compare(dflt, sync)
     ctx.analysed["bodies_compared"] = r["same"] + len(r["differing"])
-    ctx.floor("same-program", r["same"], 450, "bodies identical in default and sync modulo Rc<->Arc")
+    ctx.floor("same-program", r["same"], 380, "bodies identical in default and sync modulo Rc<->Arc")
     ia, ib = cc.index_bodies(dflt), cc.index_bodies(sync)
     for k in r["differing"]:
         ctx.bad("same-program", f"differs:{k[0]}", f"body {k[0]} differs between default and sync: {cc.first_difference(ia[k], ib[k])[:300]}", ia[k].span)
